@@ -370,6 +370,15 @@ pub fn mix_family(level: u32) -> Vec<Script> {
                 seq(writers(), seq(canon(cp, "$s", "#cn"), seq(I::Ap { src: Arg::Canon("#cn".into()), dst: "whole".into() }, call(op, "obs", vec![var("whole")], sc("o"))))),
             );
         }
+        // M12: the fold body fails (uncaught, before `next`) on the value written by f2; a stream fold swallows the
+        // failure and goes on with the next generation, whose sub-trace must stay separate from the failed one's
+        for vp in ["A", "B"] {
+            if level == 0 && vp == "B" && p1 != "A" {
+                continue;
+            }
+            let body = seq(call(vp, "seen", vec![var("i")], Out::None), seq(I::Mismatch(Arg::Lens("i".into(), ".f".into()), Arg::Str("f2".into()), Box::new(I::Null)), I::Next("i".into())));
+            push(vec!["STREAM", "mix", "fold-body-fails-on-one-value", &pn, vp], seq(par(writers(), call("C", "f3", vec![], st("$s"))), fold(Arg::Stream("$s".into()), "i", body)));
+        }
         // M8: par/next body with a last instruction
         push(
             vec!["STREAM", "mix", "par-next-with-last", &pn],
